@@ -69,6 +69,13 @@ def cases(tier, seed):
     for u in (perms if tier == "thorough" else perms[1::2] + perms[:1]):
         out.append({"kind": "f1d", "route": "sort", "uniques": u, "N": 4, "name": f"factorize_1d(sort=True): labels {u} re-ordered, codes re-mapped/N=4"})
     out.append({"kind": "f1d", "route": "bool", "N": 3, "name": "factorize_1d(boolean key): code = the value, labels [False, True]/N=3"})
+    # (i) the arrow route: a pre-chunked, dictionary-typed arrow key whose chunks carry different dictionaries (contract model of the pyarrow objects)
+    dicts = [([["x", "y"], ["y", "z"]], [2, 2]), ([["x", "y", "z"], ["z", "x"]], [2, 2]), ([["a"], ["b", "a"]], [1, 3])]
+    if tier != "quick":
+        dicts += [([["x", "y"], ["x", "y"]], [2, 2]), ([["q", "p"], ["p"], ["r", "q"]], [2, 1, 2])]
+    for dd, lens in dicts:
+        out.append({"kind": "arrow_dict", "dictionaries": dd, "lengths": lens,
+                    "name": f"factorize_1d(dictionary-typed arrow ChunkedArray): chunk dictionaries {dd}, chunk lengths {lens}"})
     # (e) range index
     for step in (-3, -2, -1, 1, 2, 3):
         out.append({"kind": "range_index", "N": N, "step": step, "name": f"factorize_range_index/step={step}/N={N}"})
@@ -93,6 +100,8 @@ def run_case(E, case):
             return run_views(E, case)
         if k == "f1d":
             return run_f1d(E, case)
+        if k == "arrow_dict":
+            return run_arrow_dict(E, case)
     except (Unsupported, OutsideModel):
         raise
     raise Unsupported(k)
@@ -427,6 +436,71 @@ def replay_range_index(case, conc):
     return bool(bad), {"codes": jsonable(list(codes)), "index": str(idx)}
 
 
+# ------------------------------------------------------------------ factorize_1d: the arrow route for dictionary-typed chunked keys
+def run_arrow_dict(E, case):
+    from ..models import FakeDictArray, FakeDictChunked, LIndex
+    t0 = time.time()
+    fz = E["factorization"]
+    inp = Inputs()
+    merged = MergedRT()
+    dd, lens = case["dictionaries"], case["lengths"]
+    idx = [inp.ints(f"i{c}_", L, 0, len(dd[c]) - 1) for c, L in enumerate(lens)]
+
+    def body():
+        arr = FakeDictChunked([FakeDictArray(A(list(ix), "int64").tag("input:group_key"), list(d)) for ix, d in zip(idx, dd)])
+        return fz["factorize_1d"](arr)
+    try:
+        paths = run_paths(body)
+    except (Unsupported, OutsideModel):
+        raise
+    except Exception as e:      # noqa: BLE001
+        from .common import raises_result
+        return raises_result(E, inp, PROP, "factorize_1d:arrow_dict", case, e, t0)
+    bads = []
+    for pc, (codes, labels), rt in paths:
+        pcz = b_and(*pc) if pc else True
+        for kind, g_, c_, where in rt.obligations:
+            merged.obligations.append((kind, b_and(pcz, g_), c_, where))
+        labs = list(labels.labels) if isinstance(labels, LIndex) else None
+        cells = codes.cells if isinstance(codes, A) else list(codes)
+        n = sum(lens)
+        if labs is None or len(cells) != n:
+            bads.append((f"labels {labs} / {len(cells)} codes for {n} rows", pcz))
+            continue
+        if len(set(labs)) != len(labs):
+            bads.append((f"labels {labs} are not pairwise distinct", pcz))
+        p = 0
+        for c, L in enumerate(lens):
+            for r in range(L):
+                code = cells[p]
+                ok = b_or(*[b_and(idx[c][r] == j, b_or(*[code == q for q, lab in enumerate(labs) if lab == dd[c][j]])) for j in range(len(dd[c]))])
+                bads.append((f"row {p} (chunk {c}): the label at its code is its key", b_and(pcz, b_not(ok))))
+                p += 1
+    dec = decide(inp, bads, merged)
+    return _result(E, dec, t0, case, "factorize_1d:arrow_dict")
+
+
+def replay_arrow_dict(case, conc):
+    import pyarrow as pa
+    from groupby_lib.groupby.factorization import factorize_1d
+    dd, lens = case["dictionaries"], case["lengths"]
+    chunks, keys = [], []
+    for c, L in enumerate(lens):
+        ix = [int(x) for x in conc[f"i{c}_"]]
+        chunks.append(pa.DictionaryArray.from_arrays(pa.array(ix, type=pa.int32()), pa.array(dd[c])))
+        keys += [dd[c][i] for i in ix]
+    codes, labels = factorize_1d(pa.chunked_array(chunks))
+    labs = [str(x) for x in labels]
+    problems = []
+    for r, k in enumerate(keys):
+        c = int(codes[r])
+        if not (0 <= c < len(labs)) or labs[c] != k:
+            problems.append(f"row {r}: key {k!r} got code {c} = {labs[c] if 0 <= c < len(labs) else None!r}")
+    if len(set(labs)) != len(labs):
+        problems.append(f"labels {labs} not distinct")
+    return bool(problems), {"problems": problems[:5], "labels": labs, "keys": keys}
+
+
 # ------------------------------------------------------------------ factorize_1d: manual sort, boolean route
 def run_f1d(E, case):
     from ..models import FakeSeries, LIndex
@@ -610,6 +684,8 @@ def replay(case, conc, cand=None):
         return replay_views(case, conc)
     if k == "f1d":
         return replay_f1d(case, conc)
+    if k == "arrow_dict":
+        return replay_arrow_dict(case, conc)
     if k == "combine":
         return replay_combine(case, conc)
     if k == "monotonic":
